@@ -861,14 +861,20 @@ struct Driver {
     else if (o == "scope") {
       Slot& s = slot(si);
       void* p = s.kind == 1 ? s.p : s.kind == 2 ? s.dm.rx : nullptr;
+      long policy = op["policy"].i();
       Armed a;
-      scopes.push_back(new VirtMem::ProtectJitReadWriteScope(p, s.n, VirtMem::CachePolicy(uint32_t(op["policy"].i()))));
+      { vj::W w; w.beginObj().kv("e", "VmCall").kv("api", "scope_open").kv("p", (unsigned long long)uintptr_t(p)).kv("n", (unsigned long long)s.n).kv("policy", (long long)policy).endObj(); emit(w); }
+      scopes.push_back(new VirtMem::ProtectJitReadWriteScope(p, s.n, VirtMem::CachePolicy(uint32_t(policy))));
+      { vj::W w; w.beginObj().kv("e", "VmRet").kv("api", "scope_open").kv("r", "Ok").endObj(); emit(w); }
     }
     else if (o == "unscope") {
       if (scopes.empty()) return;
       Armed a;
-      delete scopes.back();
+      VirtMem::ProtectJitReadWriteScope* sc = scopes.back();
+      { vj::W w; w.beginObj().kv("e", "VmCall").kv("api", "scope_close").kv("p", (unsigned long long)uintptr_t(sc->_rx_ptr)).kv("n", (unsigned long long)sc->_size).kv("policy", (long long)uint32_t(sc->_policy)).endObj(); emit(w); }
+      delete sc;
       scopes.pop_back();
+      { vj::W w; w.beginObj().kv("e", "VmRet").kv("api", "scope_close").kv("r", "Ok").endObj(); emit(w); }
     }
     else if (o == "flush") {
       Slot& s = slot(si);
